@@ -30,7 +30,7 @@ def main():
         json.dump(res, f, default=str)
     if res["paths"]:
         subprocess.run([sys.executable, "-m", "vcheck.native", "validate", resf],
-                       cwd=os.path.dirname(os.path.dirname(os.path.abspath(__file__))), check=False)
+                       cwd=os.path.dirname(os.path.dirname(os.path.abspath(__file__))), check=False, env=dict(os.environ))
 
 
 if __name__ == "__main__":
